@@ -28,17 +28,22 @@ sh('git checkout -- pytoniq_core')
 print(f'clean demo rc={clean_demo} mutated demo rc={mut_demo} tests_ok={tests_ok} ({tests.stdout.strip().splitlines()[-1]})')
 if clean_demo != 0 or mut_demo == 0 or not tests_ok:
     print('NOT CONFIRMED'); sys.exit(1)
-# run our checks against /repo with the change
+# run our checks against the change: the patch stays applied in the scratch worktree (VERIF_REPO points the checks at it) and the
+# checks run in a scratch copy of /verif, so neither /repo nor /verif's evidence and build directories are touched
 results = {}
-assert subprocess.run(f'git -C /repo apply {diff}', shell=True).returncode == 0, 'diff does not apply to /repo'
+assert sh(f'git apply {diff}').returncode == 0
+scratch = f'/tmp/sk_verif_{os.getpid()}'
+subprocess.run(f'mkdir -p {scratch} && rsync -a --exclude build --exclude .git --exclude replays --exclude seeded /verif/ {scratch}/', shell=True, check=True)
 try:
     for c in checks:
-        p = subprocess.run(f'./check {c} --tier {tier}', cwd='/verif', shell=True, stdout=subprocess.PIPE, stderr=subprocess.STDOUT, text=True)
+        p = subprocess.run(f'./check {c} --tier {tier}', cwd=scratch, shell=True, stdout=subprocess.PIPE, stderr=subprocess.STDOUT, text=True,
+                           env=dict(os.environ, VERIF_REPO=wt))
         kinds = [l for l in p.stdout.splitlines() if 'failure kinds' in l or 'VIOLATION' in l or 'MACHINERY' in l]
         results[c] = {'rc': p.returncode, 'lines': [l[:300] for l in kinds]}
         print(c, p.returncode, kinds[:2])
 finally:
-    subprocess.run('git -C /repo checkout -- .', shell=True)
+    sh('git checkout -- pytoniq_core')
+    shutil.rmtree(scratch, ignore_errors=True)
 off = int(sys.argv[sys.argv.index('--offset') + 1]) if '--offset' in sys.argv else 0
 dst = f'/verif/seeded/{prop}-{int(k) + off}'
 os.makedirs(dst, exist_ok=True)
@@ -47,7 +52,7 @@ shutil.copy(demo, os.path.join(dst, 'demo.py'))
 meta = {'property': prop, 'needs': open(notes).read().strip() if os.path.exists(notes) else '',
         'confirmed': {'existing_tests_pass_with_change': tests_ok, 'demo_rc_clean': clean_demo, 'demo_rc_with_change': mut_demo,
                       'ran': [f'PYTHONPATH=<worktree> /venv/bin/python -m pytest -q tests', 'demo.py with and without the change',
-                              f'./check <id> --tier {tier} with the change applied to /repo, then git checkout']},
+                              f'./check <id> --tier {tier} with VERIF_REPO pointing at the scratch worktree holding the change']},
         'detected_by': {c: r['rc'] == 1 for c, r in results.items()}, 'check_output': results}
 json.dump(meta, open(os.path.join(dst, 'meta.json'), 'w'), indent=1)
 print('kept', dst, meta['detected_by'])
